@@ -26,6 +26,8 @@ def make_scratch(edits, patch=None):
         s = s.replace(e["old"], e["new"])
         open(p, "w").write(s)
     if patch:
+        if not os.path.isabs(patch):
+            patch = os.path.join(VERIF, patch)
         subprocess.check_call(["patch", "-p1", "-s", "-d", d, "-i", patch])
     return d
 
